@@ -68,7 +68,7 @@ fn key_bytes(cfg: &Cfg, i: usize) -> Vec<u8> {
 		k
 	} else {
 		// skewed: shared prefixes, one key is a prefix of another
-		let mut k = format!("k{i:02}").into_bytes();
+		let mut k = if cfg.nkeys > 100 { format!("k{i:03}") } else { format!("k{i:02}") }.into_bytes();
 		while k.len() < cfg.key_len {
 			k.push(b'x');
 		}
@@ -468,6 +468,95 @@ pub fn configs() -> Vec<Cfg> {
 	]
 }
 
+/// Growth / shrink pass: insert `n` keys one at a time in the given order, then delete them one at a
+/// time, closing and reopening the tree after EVERY operation (so every structural event - leaf
+/// split, internal split, root split, merge, redistribution, root collapse - is immediately
+/// followed by a reopen) and checking the whole tree against the model after every reopen.
+fn growth_pass(cfg: &Cfg, order: &str, n: usize, transitions: &mut u64) -> Result<Option<Found>, String> {
+	let dir = fresh_dir("c18-grow");
+	let p = dir.join("grow.bpt");
+	let mut model = Model::new();
+	let idx = |i: usize| -> usize {
+		match order {
+			"ascending" => i,
+			"descending" => n - 1 - i,
+			// alternate low / high so that splits happen on both edges
+			_ => {
+				if i % 2 == 0 {
+					i / 2
+				} else {
+					n - 1 - i / 2
+				}
+			}
+		}
+	};
+	let mut path: Vec<Bop> = vec![];
+	let mut ops: Vec<Bop> = (0..n).map(|i| Bop::Insert(idx(i), 0)).collect();
+	ops.extend((0..n).map(|i| Bop::Delete(idx((i * 7 + 3) % n))));
+	let mut res = None;
+	for op in ops {
+		path.push(op);
+		*transitions += 1;
+		let r = (|| -> Result<(), (String, String)> {
+			let mut t = open(&p, cfg).map_err(|e| ("op-error:open".to_string(), e))?;
+			apply(&mut t, cfg, &mut model, &op)?;
+			t.flush().map_err(|e| ("op-error:flush".to_string(), format!("{e}")))?;
+			drop(t);
+			let mut t = open(&p, cfg).map_err(|e| ("op-error:reopen".to_string(), e))?;
+			check_tree(&mut t, cfg, &model).map_err(|(c, t)| (format!("after-reopen:{c}"), t))?;
+			Ok(())
+		})();
+		if let Err((class, text)) = r {
+			res = Some(Found {
+				class: format!("growth:{class}"),
+				text: format!("[{} growth pass, {order} order] after {} operations (last {}): {text}", cfg.name, path.len(), bop_str(&op)),
+				replay: json!({"engine": "c18-growth", "cfg": cfg.name, "order": order, "n": n}),
+			});
+			break;
+		}
+	}
+	let _ = std::fs::remove_dir_all(&dir);
+	Ok(res)
+}
+
+fn growth_configs() -> Vec<(Cfg, usize)> {
+	vec![
+		(
+			Cfg {
+				name: "growth-medium-keys",
+				timestamp_cmp: false,
+				key_len: 24,
+				nkeys: 140,
+				sizes: vec![100],
+				prefill: vec![],
+			},
+			140,
+		),
+		(
+			Cfg {
+				name: "growth-big-keys",
+				timestamp_cmp: false,
+				key_len: 900,
+				nkeys: 40,
+				sizes: vec![8],
+				prefill: vec![],
+			},
+			40,
+		),
+		(
+			Cfg {
+				name: "growth-timestamp-order",
+				timestamp_cmp: true,
+				key_len: 600,
+				nkeys: 45,
+				sizes: vec![8],
+				prefill: vec![],
+			},
+			45,
+		),
+	]
+}
+
 pub fn check(tier: Tier) -> i32 {
 	let mut report = Report::new("C18", tier, "model_checking");
 	let budget = Budget::new(if tier == Tier::Quick { 45.0 } else { 900.0 });
@@ -486,6 +575,30 @@ pub fn check(tier: Tier) -> i32 {
 			Err(e) => {
 				eprintln!("machinery: {e}");
 				return 2;
+			}
+		}
+	}
+	// growth / shrink passes with a reopen after every operation
+	{
+		use rayon::prelude::*;
+		let jobs: Vec<(Cfg, usize, &str)> = growth_configs().into_iter().flat_map(|(c, n)| ["ascending", "descending", "alternating"].into_iter().map(move |o| (c.clone(), n, o))).collect();
+		let results: Vec<(String, Result<Option<Found>, String>, u64)> = jobs
+			.par_iter()
+			.map(|(c, n, o)| {
+				let mut t = 0u64;
+				let r = growth_pass(c, o, *n, &mut t);
+				(format!("{} ({o}, {n} inserts then {n} deletes, reopen + full check after each)", c.name), r, t)
+			})
+			.collect();
+		for (name, r, t) in results {
+			transitions += t;
+			match r {
+				Err(e) => {
+					eprintln!("machinery: {e}");
+					return 2;
+				}
+				Ok(Some(f)) => found.push(f),
+				Ok(None) => completed.push(format!("growth pass {name}: complete")),
 			}
 		}
 	}
@@ -547,6 +660,44 @@ pub fn check(tier: Tier) -> i32 {
 
 pub fn replay(r: &J) -> i32 {
 	let name = r["cfg"].as_str().unwrap_or("");
+	if r["engine"] == "c18-growth" {
+		let Some((cfg, _)) = growth_configs().into_iter().find(|c| c.0.name == name) else {
+			eprintln!("machinery: unknown growth cfg {name}");
+			return 2;
+		};
+		let order = r["order"].as_str().unwrap_or("ascending").to_string();
+		let n = r["n"].as_u64().unwrap_or(0) as usize;
+		let order: &'static str = match order.as_str() {
+			"descending" => "descending",
+			"alternating" => "alternating",
+			_ => "ascending",
+		};
+		let mut t = 0;
+		let a = growth_pass(&cfg, order, n, &mut t);
+		let b = growth_pass(&cfg, order, n, &mut t);
+		return match (a, b) {
+			(Ok(a), Ok(b)) => {
+				if a.as_ref().map(|f| &f.class) != b.as_ref().map(|f| &f.class) {
+					eprintln!("machinery: replay not deterministic");
+					return 2;
+				}
+				match a {
+					Some(f) => {
+						println!("VIOLATION property=C18 replay=<this file>\n  class={} {}", f.class, f.text);
+						1
+					}
+					None => {
+						println!("replay passed: no violation");
+						0
+					}
+				}
+			}
+			(Err(e), _) | (_, Err(e)) => {
+				eprintln!("machinery: {e}");
+				2
+			}
+		};
+	}
 	let Some(cfg) = configs().into_iter().find(|c| c.name == name) else {
 		eprintln!("machinery: unknown cfg {name}");
 		return 2;
